@@ -443,6 +443,17 @@ def parseTextK (k : Nat) (o : ROpts) (m : Mapper) (text : Str) : Option (List PT
 /-- `TreeList.get(data=text, schema="newick", …)` into a mapper (fresh namespace for plain Newick) -/
 def parseText (o : ROpts) (m : Mapper) (text : Str) : Option (List PT × Mapper) := parseTextK 0 o m text
 
+/-! ### NEXUS: the TAXLABELS list -/
+
+def indent8 : Str := [' ', ' ', ' ', ' ', ' ', ' ', ' ', ' ']
+
+/-- the body of the TAXLABELS command as `NexusWriter._write_taxa_block` writes it: one indented, escaped label per
+    line (default protect class), then the terminating `;` -/
+def taxlabelsText (ps uu : Bool) : List Str → Str
+  | [] => [' ', ' ', ';', '\n']
+  | l :: ns => indent8 ++ (escape ps (!uu) protectDefault l ++ '\n' :: taxlabelsText ps uu ns)
+
+
 /-! ### rendering for the protocol -/
 
 def hexS (s : Str) : String := if s.isEmpty then "=" else String.ofList (hex6 s)
